@@ -14,6 +14,12 @@ func (l *UnwrapAggPlanner) Process(ctx *shared.PlannerContext,
 	return l.process(ctx, in, aggregatorPlannerOps{
 		addValue: l.addValue,
 		finalize: l.finalize,
+		initStream: func(ctx *shared.PlannerContext, stream *aggOpStream) {
+			if l.Function == "first_over_time" || l.Function == "last_over_time" {
+				// entries arrive in the order of the request (newest first by default), not in time order
+				stream.ts = make([]int64, len(stream.values)/2)
+			}
+		},
 	})
 }
 
@@ -40,13 +46,17 @@ func (l *UnwrapAggPlanner) addValue(ctx *shared.PlannerContext, entry *shared.Lo
 			stream.values[idx+1] = 1
 		}
 	case "first_over_time":
-		if stream.values[idx] == 0 {
+		if stream.values[idx+1] == 0 || entry.TimestampNS < stream.ts[idx/2] {
 			stream.values[idx] = entry.Value
 			stream.values[idx+1] = 1
+			stream.ts[idx/2] = entry.TimestampNS
 		}
 	case "last_over_time":
-		stream.values[idx] = entry.Value
-		stream.values[idx+1] = 1
+		if stream.values[idx+1] == 0 || entry.TimestampNS >= stream.ts[idx/2] {
+			stream.values[idx] = entry.Value
+			stream.values[idx+1] = 1
+			stream.ts[idx/2] = entry.TimestampNS
+		}
 	}
 }
 
